@@ -185,7 +185,7 @@ func (b HTTPBucket) NewRangeReaderEtag(ctx context.Context, key string, offset, 
 
 	resp, err := b.client.Do(req)
 	if err != nil {
-		return nil, "", resp.StatusCode, err
+		return nil, "", 500, err
 	}
 
 	if resp.StatusCode != http.StatusOK && resp.StatusCode != http.StatusPartialContent {
